@@ -184,6 +184,11 @@ def kindOf (ws : List String) : C14.Kind :=
 structure DState where
   model : St := {}
   pre   : C14.Obs := {}     -- the implementation's previous observation
+  /- gated schedule (see the harness): the parked operation, the operation blocked behind it (with the
+     state its unlocked look at the cluster saw), the writes shown so far -/
+  pend1 : Option (List String) := none
+  pend2 : Option (List String × St) := none
+  gw    : List Write := []
 
 def monitor (pre : C14.Obs) (ws : List String) (i : Impl) : List String :=
   if !i.wellFormed then [] else
@@ -193,8 +198,50 @@ def monitor (pre : C14.Obs) (ws : List String) (i : Impl) : List String :=
       failed := (i.writes.filter (·.2)).map (·.1) }
   (C14.violated st).map (fun v => s!"sig=C14.{v} op={" ".intercalate ws} res={i.res}")
 
+/-- the monitor on a line of a gated schedule (park / blocked / release): no operation is judged as a
+    whole there, but the served and stored records seen before and after the line are (states move only
+    forward, buried only when empty, live addresses unique, stored = served) -/
+def monitorGated (pre : C14.Obs) (ws : List String) (i : Impl) (direct : Bool := false) : List String :=
+  if !i.wellFormed then [] else
+  let st : C14.Step :=
+    { kind := if direct then .directBury else .other, pre := pre, post := i.obs, ok := true, refused := false,
+      crashed := (i.res.splitOn " ").contains "panic", failed := [] }
+  (C14.violated st).map (fun v => s!"sig=C14.{v} op={" ".intercalate ws} res={i.res}")
+
+/-- does the operation wait for the cluster lock held by a parked one?  (Every entry point takes the lock
+    - or, through the RPC layer, the read lock - first, except `UpdateStoreLabels`, which looks the store up
+    before, and `checkStores`, which only locks when it buries.) -/
+def expectBlocked (s : St) (ws : List String) : Bool :=
+  match ws with
+  | "labels" :: id :: _ => (get s.served (natArg id)).isSome
+  | "check" :: _ => (servedIds s).any (buriable s)
+  | _ => true
+
+/-- the second operation of a gated schedule, as it runs once it has the lock: what it learnt from the
+    cluster before (state `pre`) is kept -/
+def lockedHalf (pre : St) (ws : List String) (order : List Nat) : Option Op :=
+  match ws with
+  | ["labels", id, ls, force, mask] =>
+    match get pre.served (natArg id) with
+    | some sv =>
+      some (.labelsFrom { id := natArg id, addr := sv.md.addr, ver := some sv.md.ver, start := sv.md.start,
+                          labels := parseLabels ls } (force == "1") (natArg mask))
+    | none => parseOp ws order
+  | ["check", mask] =>
+    let cands := (servedIds pre).filter (buriable pre)
+    some (.checkOnly ((order.filter cands.contains) ++ cands) (natArg mask))
+  | _ => parseOp ws order
+
+/-- is one of the operations in flight the direct hook call of `buryStore`? -/
+def directInFlight (p1 : Option (List String)) (p2 : Option (List String × St)) : Bool :=
+  (match p1 with | some ("bury" :: _) => true | _ => false) ||
+  (match p2 with | some ("bury" :: _, _) => true | _ => false)
+
 def step (d : DState) (opLine : String) (impl : String) : DState × StepOut :=
   let ws := words opLine
+  let i := parseImpl impl
+  let order := i.writes.map (·.1)
+  let pre' := if i.wellFormed then i.obs else d.pre
   match ws with
   | "reset" :: _mode :: args =>
     match parseVer (kvArg args "cv") with
@@ -203,17 +250,74 @@ def step (d : DState) (opLine : String) (impl : String) : DState × StepOut :=
       let cfg : Config := { strict := kvArg args "strict" == "1", pr := kvArg args "pr" == "1",
                             loc := if loc == "-" || loc == "" then [] else loc.splitOn "," }
       let s := init cfg cv
-      let i := parseImpl impl
       ({ model := s, pre := {} }, { model := "ok ; " ++ dump s [], fails := monitor {} ["reset"] i })
     | none => (d, { model := "bad-op" })
-  | _ =>
-    let i := parseImpl impl
-    match parseOp ws (i.writes.map (·.1)) with
-    | none => (d, { model := "bad-op" })
-    | some op =>
+  | "park" :: rest =>
+    match d.pend1, d.pend2, parseOp rest order with
+    | none, none, some op =>
       let o := PdModel.StoreFsm.step d.model op
-      ({ model := o.st, pre := if i.wellFormed then i.obs else d.pre },
-       { model := resStr o.res ++ " ; " ++ dump o.st o.writes, fails := monitor d.pre ws i })
+      if o.writes.isEmpty then
+        ({ model := o.st, pre := pre' },
+         { model := resStr o.res ++ " ; " ++ dump o.st o.writes, fails := monitor d.pre rest i })
+      else
+        ({ d with pre := pre', pend1 := some rest, gw := o.writes.take 1 },
+         { model := "parked ; " ++ dump d.model (o.writes.take 1), fails := monitorGated d.pre ws i (directInFlight d.pend1 d.pend2) })
+    | _, _, _ => (d, { model := "bad-op" })
+  | ["release"] =>
+    match d.pend1, d.pend2 with
+    | some ws1, p2 =>
+      match parseOp ws1 order with
+      | none => (d, { model := "bad-op" })
+      | some op1 =>
+        let o1 := PdModel.StoreFsm.step d.model op1
+        match p2 with
+        | none =>
+          ({ model := o1.st, pre := pre' },
+           { model := resStr o1.res ++ " ; " ++ dump o1.st o1.writes, fails := monitorGated d.pre ws i (directInFlight d.pend1 d.pend2) })
+        | some (ws2, pre2) =>
+          match lockedHalf pre2 ws2 (order.drop o1.writes.length) with
+          | none => (d, { model := "bad-op" })
+          | some op2 =>
+            let o2 := PdModel.StoreFsm.step o1.st op2
+            if o2.writes.isEmpty then
+              ({ model := o2.st, pre := pre' },
+               { model := resStr o1.res ++ " " ++ resStr o2.res ++ " ; " ++ dump o2.st o1.writes,
+                 fails := monitorGated d.pre ws i (directInFlight d.pend1 d.pend2) })
+            else
+              ({ model := o1.st, pre := pre', pend2 := p2, gw := o1.writes },
+               { model := resStr o1.res ++ " parked ; " ++ dump o1.st (o1.writes ++ o2.writes.take 1),
+                 fails := monitorGated d.pre ws i (directInFlight d.pend1 d.pend2) })
+    | none, some (ws2, pre2) =>
+      match lockedHalf pre2 ws2 (order.drop d.gw.length) with
+      | none => (d, { model := "bad-op" })
+      | some op2 =>
+        let o2 := PdModel.StoreFsm.step d.model op2
+        ({ model := o2.st, pre := pre' },
+         { model := resStr o2.res ++ " ; " ++ dump o2.st (d.gw ++ o2.writes), fails := monitorGated d.pre ws i (directInFlight d.pend1 d.pend2) })
+    | none, none => (d, { model := "bad-op" })
+  | _ =>
+    match d.pend1, d.pend2 with
+    | some _, none =>
+      -- an operation started while another one is parked
+      if expectBlocked d.model ws then
+        ({ d with pre := pre', pend2 := some (ws, d.model) },
+         { model := "blocked ; " ++ dump d.model d.gw, fails := monitorGated d.pre ws i (directInFlight d.pend1 d.pend2) })
+      else
+        match parseOp ws (order.drop d.gw.length) with
+        | none => (d, { model := "bad-op" })
+        | some op =>
+          let o := PdModel.StoreFsm.step d.model op
+          ({ d with model := o.st, pre := pre', gw := d.gw ++ o.writes },
+           { model := resStr o.res ++ " ; " ++ dump o.st (d.gw ++ o.writes), fails := monitor d.pre ws i })
+    | some _, some _ => (d, { model := "bad-op" })
+    | none, some _ => (d, { model := "bad-op" })
+    | none, none =>
+      match parseOp ws order with
+      | none => (d, { model := "bad-op" })
+      | some op =>
+        let o := PdModel.StoreFsm.step d.model op
+        ({ model := o.st, pre := pre' },
+         { model := resStr o.res ++ " ; " ++ dump o.st o.writes, fails := monitor d.pre ws i })
 
 def main : IO UInt32 := runDriver ({} : DState) step
 
